@@ -7,8 +7,11 @@
     SM/Replay.v (StateApplyManager start-up: load_index -> load_snapshot -> load_log).
     Components enter through the interface {apply; snapshot; load_record; observe(=ceq)} with
     their round-trip law as hypothesis (MCP, direct cache, naming, ... are validated by the
-    `restart` harness only; concrete Config / Sequence models: another package). *)
-From RN Require Import SM.Replay SM.ReplayProofs RaftLog.SnapFileProofs Codec.BufReaderProofs SM.SnapshotInst.
+    `restart` harness only).  Round 2 (end of this file): the premises are discharged for the
+    concrete Config / Sequence / Table components (SM/Concrete.v over builder E's store model,
+    SM/SnapCodec.v over builder B's protobuf wire layer) and the C20 framing theorem. *)
+From RN Require Import SM.Replay SM.ReplayProofs RaftLog.SnapFileProofs Codec.BufReaderProofs SM.SnapshotInst
+     SM.Concrete SM.SnapCodecProofs SM.ConcreteProofs SM.ConcreteInst.
 
 (** Every tree name that a component's source writes is dispatched back to that component by
     the generated load_snapshot table (finite check over the Gen tables); the generated
@@ -48,19 +51,20 @@ Theorem C01_restart_reproduces :
          (capply : comp -> S -> M -> S) (csnap : comp -> S -> list record)
          (cload : comp -> load_msg -> S -> record -> S) (cinit : comp -> S)
          (ceq : comp -> S -> S -> Prop),
-    (forall c s, ceq c s s) ->
     (forall c s1 s2 s3, ceq c s1 s2 -> ceq c s2 s3 -> ceq c s1 s3) ->
     (forall c s1 s2 m, ceq c s1 s2 -> ceq c (capply c s1 m) (capply c s2 m)) ->
-    (* invariant of reachable component states / messages in scope *)
-    forall (cinv : comp -> S -> Prop) (mok : comp -> M -> Prop),
+    (* invariant of reachable component states / messages in scope / snapshot-encodable states *)
+    forall (cinv : comp -> S -> Prop) (mok : comp -> M -> Prop) (cok : comp -> S -> Prop),
+    (forall c s, cinv c s -> ceq c s s) ->
     (forall c, cinv c (cinit c)) ->
     (forall c s m, cinv c s -> mok c m -> cinv c (capply c s m)) ->
     (* component laws *)
-    (forall c s r, cinv c s -> In r (csnap c s) -> routed_to c (rtree r) (rkey r)) ->
-    (forall c s, cinv c s -> ceq c (fold_left (cload_routed S cload c) (csnap c s) (cinit c)) s) ->
+    (forall c s r, cinv c s -> cok c s -> In r (csnap c s) -> routed_to c (rtree r) (rkey r)) ->
+    (forall c s, cinv c s -> cok c s -> ceq c (fold_left (cload_routed S cload c) (csnap c s) (cinit c)) s) ->
     forall (enc : record -> list N) (dec_frame : list N -> option record)
            (hist : list (entry M)) (k : nat) (leftover hdr : list N),
       (k <= length hist)%nat -> Forall (entry_ok M mok) hist ->
+      (forall c, cok c (run S M capply (firstn k hist) (init_node S cinit) c)) ->
       codec_ok enc dec_frame hdr
                (build_snapshot S csnap (run S M capply (firstn k hist) (init_node S cinit))) ->
       exists nd,
@@ -74,15 +78,16 @@ Theorem C01_restart_state :
          (capply : comp -> S -> M -> S) (csnap : comp -> S -> list record)
          (cload : comp -> load_msg -> S -> record -> S) (cinit : comp -> S)
          (ceq : comp -> S -> S -> Prop),
-    (forall c s, ceq c s s) ->
     (forall c s1 s2 s3, ceq c s1 s2 -> ceq c s2 s3 -> ceq c s1 s3) ->
     (forall c s1 s2 m, ceq c s1 s2 -> ceq c (capply c s1 m) (capply c s2 m)) ->
-    forall (cinv : comp -> S -> Prop) (mok : comp -> M -> Prop),
+    forall (cinv : comp -> S -> Prop) (mok : comp -> M -> Prop) (cok : comp -> S -> Prop),
+    (forall c s, cinv c s -> ceq c s s) ->
     (forall c, cinv c (cinit c)) ->
     (forall c s m, cinv c s -> mok c m -> cinv c (capply c s m)) ->
-    (forall c s r, cinv c s -> In r (csnap c s) -> routed_to c (rtree r) (rkey r)) ->
-    (forall c s, cinv c s -> ceq c (fold_left (cload_routed S cload c) (csnap c s) (cinit c)) s) ->
+    (forall c s r, cinv c s -> cok c s -> In r (csnap c s) -> routed_to c (rtree r) (rkey r)) ->
+    (forall c s, cinv c s -> cok c s -> ceq c (fold_left (cload_routed S cload c) (csnap c s) (cinit c)) s) ->
     forall (hist : list (entry M)) (k : nat), (k <= length hist)%nat -> Forall (entry_ok M mok) hist ->
+    (forall c, cok c (run S M capply (firstn k hist) (init_node S cinit) c)) ->
     forall c, ceq c (start_up S M capply cload cinit
                               (Some (k, build_snapshot S csnap (run S M capply (firstn k hist) (init_node S cinit))))
                               hist (length hist) c)
@@ -156,17 +161,18 @@ Theorem C01_restart_racy_idempotent :
          (capply : comp -> S -> M -> S) (csnap : comp -> S -> list record)
          (cload : comp -> load_msg -> S -> record -> S) (cinit : comp -> S)
          (ceq : comp -> S -> S -> Prop),
-    (forall c s, ceq c s s) ->
     (forall c s1 s2 s3, ceq c s1 s2 -> ceq c s2 s3 -> ceq c s1 s3) ->
     (forall c s1 s2 m, ceq c s1 s2 -> ceq c (capply c s1 m) (capply c s2 m)) ->
-    forall (cinv : comp -> S -> Prop) (mok : comp -> M -> Prop),
+    forall (cinv : comp -> S -> Prop) (mok : comp -> M -> Prop) (cok : comp -> S -> Prop),
+    (forall c s, cinv c s -> ceq c s s) ->
     (forall c, cinv c (cinit c)) ->
     (forall c s m, cinv c s -> mok c m -> cinv c (capply c s m)) ->
-    (forall c s r, cinv c s -> In r (csnap c s) -> routed_to c (rtree r) (rkey r)) ->
-    (forall c s, cinv c s -> ceq c (fold_left (cload_routed S cload c) (csnap c s) (cinit c)) s) ->
+    (forall c s r, cinv c s -> cok c s -> In r (csnap c s) -> routed_to c (rtree r) (rkey r)) ->
+    (forall c s, cinv c s -> cok c s -> ceq c (fold_left (cload_routed S cload c) (csnap c s) (cinit c)) s) ->
     forall (hist : list (entry M)) (k : nat) (j : comp -> nat) (c : comp),
       Forall (entry_ok M mok) hist ->
       replay_idempotent S M capply ceq c ->
+      (forall d, cok d (run S M capply (firstn (k + j d) hist) (init_node S cinit) d)) ->
       ceq c (restart_racy S M capply csnap cload cinit hist k j c)
             (run S M capply hist (init_node S cinit) c).
 Proof. exact restart_racy_idempotent. Qed.
@@ -178,3 +184,71 @@ Theorem C01_replay_idempotence_instances :
   (forall c s1 s2 m, keq c s1 s2 -> keq c (kapply c s1 m) (kapply c s2 m)) /\
   ~ replay_idempotent N N rapply req_ KConfig.
 Proof. exact (conj kv_replay_idempotent (conj keq_apply_cong reg_not_replay_idempotent)). Qed.
+
+(** * Round 2: the component premises discharged by concrete models *)
+
+(** The record codec (LogSnapshotItem over the protobuf wire layer): what SnapshotWriter writes
+    for a record is decoded back to the same record by SnapshotReader::read_record. *)
+Theorem C01_record_codec_roundtrip :
+  forall r, wf_record r -> dec_item_frame (frame (enc_item r)) = Some r /\ rec_ok (enc_item r).
+Proof. exact (fun r W => conj (item_roundtrip r W) (item_rec_ok r W)). Qed.
+
+(** ConfigValueDO (prost) round trip: content, every history item (id, content, time, user, in
+    order), type and description survive to_bytes / from_bytes; and a value as the committed
+    commands leave it (not temporary, md5 = H content, normalised type, last_modified = time of
+    the newest history item) is rebuilt EXACTLY by From<ConfigValueDO> — md5 recomputed,
+    tmp = false, type re-normalised, last_modified re-derived. *)
+Theorem C01_config_value_roundtrip :
+  forall (H : str -> str) (v : cvalue),
+    wf_value v -> canon v -> cv_md5 v = H (cv_content v) ->
+    res_map (value_of_do H) (dec_value (enc_value v)) = Ok v.
+Proof.
+  exact (fun H v W C M => eq_trans (f_equal (res_map (value_of_do H)) (value_roundtrip v W))
+                                   (f_equal Ok (value_do_id H v C M))).
+Qed.
+
+(** The config store's snapshot round-trip law: loading its own snapshot (one T_CONFIG record
+    per key + the SEQ_CONFIG record) into a fresh ConfigActor gives the same cache (content,
+    md5, type, desc, history, last_modified of every key), the same set of listed keys and the
+    same history-id high-water mark.  [cfg_inv] holds in every state reached by committed
+    commands on a node without temporary (follower-routed) values. *)
+Theorem C01_config_snapshot_roundtrip :
+  forall (H : str -> str) (s : store),
+    cfg_inv H s -> cfg_ok s ->
+    exists s', fold_left (cload_routed cstate (n_load H) KConfig) (n_snap KConfig (SCfg s)) (n_init KConfig) = SCfg s'
+               /\ cfg_eqw s' s.
+Proof. exact cfg_roundtrip. Qed.
+
+(** all seven concrete components (Config, Sequence, Table; the other four are unit) *)
+Theorem C01_component_roundtrip_laws :
+  forall (H : str -> str) (c : comp) (st : cstate),
+    n_inv H c st -> n_ok c st ->
+    n_eq c (fold_left (cload_routed cstate (n_load H) c) (n_snap c st) (n_init c)) st.
+Proof. exact n_roundtrip. Qed.
+
+(** C01 WITHOUT component premises, framing premise or codec premise: for every history of
+    committed config (ConfigSet / ConfigFullValue / ConfigRemove), sequence and table
+    requests, every compaction point k and every leftover of an interrupted attempt, the node
+    restarted from the snapshot FILE BYTES + log serves the same config cache, listed keys,
+    history-id high-water mark, sequence counters and table rows as the node that ran the
+    history.  Remaining hypotheses: the requests are in scope ([n_mok]: imported keys are
+    ConfigKeys, sequence key <> "SEQ_CONFIG", tables T_USER / T_CACHE), and the state at the
+    compaction point is encodable ([n_ok]: byte strings, ids and counters below 2^64). *)
+Theorem C01_restart_reproduces_config_seq :
+  forall (H : str -> str) (hist : list (entry cmsg)) (k : nat) (leftover hdr : list N),
+    (k <= length hist)%nat ->
+    Forall (entry_ok cmsg n_mok) hist ->
+    (forall c, n_ok c (run cstate cmsg (n_apply H) (firstn k hist) (init_node cstate n_init) c)) ->
+    rec_ok hdr -> (length (frame hdr) <= 1024)%nat ->
+    exists nd,
+      restart cstate cmsg (n_apply H) n_snap (n_load H) n_init enc_item dec_item_frame
+              write_truncate leftover hdr hist k = Ok nd /\
+      forall c, n_eq c (nd c) (run cstate cmsg (n_apply H) hist (init_node cstate n_init) c).
+Proof. exact restart_reproduces_config_seq. Qed.
+
+(** its hypotheses are satisfiable: a history over the three components, compaction at 4 *)
+Theorem C01_config_seq_satisfiable :
+  Forall (entry_ok cmsg n_mok) ex_hist /\ (forall c, n_ok c (ex_state 4 c)) /\
+  (rec_ok ex_hdr /\ (length (frame ex_hdr) <= 1024)%nat) /\
+  ex_state 9 KSequence = SSeq [(b "seq1", 102%N)].
+Proof. exact (conj ex_entries_ok (conj ex_ok_at_4 (conj ex_hdr_ok (proj1 (proj2 ex_outcome))))). Qed.
